@@ -37,17 +37,25 @@ def _get_story_duration(story_tag: Element) -> Optional[float]:
     except AttributeError:
         return
 
-    try:
-        return float(payload.find('StoryDuration').text)
-    except AttributeError:
-        pass
+    # a timing tag that is present but blank says as little as a missing one
+    story_duration = _get_seconds(payload.find('StoryDuration'))
+    if story_duration is not None:
+        return story_duration
 
-    text_time = payload.find('TextTime')
-    media_time = payload.find('MediaTime')
+    text_time = _get_seconds(payload.find('TextTime'))
+    media_time = _get_seconds(payload.find('MediaTime'))
     if text_time is not None or media_time is not None:
-        text_time = float(text_time.text) if text_time is not None else 0
-        media_time = float(media_time.text) if media_time is not None else 0
-        return text_time + media_time
+        return (0 if text_time is None else text_time) + (0 if media_time is None else media_time)
+
+
+def _get_seconds(tag: Optional[Element]) -> Optional[float]:
+    """
+    Return the number of seconds in a timing tag, or None if the tag is missing
+    or blank
+    """
+    if tag is None or tag.text is None:
+        return None
+    return float(tag.text)
 
 
 def _is_technical_note(p: Element) -> bool:
